@@ -173,3 +173,22 @@ Definition file_outcome (b : list Z) : list Z :=
 (* bytes in, canonical structure out (debugging aid of the harness) *)
 Definition file_canon (b : list Z) : list Z :=
   match read_psd dec b with Err er => [err_code er] | Ok d => 0 :: c_psd d end.
+
+(* ---- the independent walker (Psd/Walk.v) on bytes: 0 :: kind1 :: size1 :: ... , or [1] when it rejects *)
+From PsdV Require Import Psd.Walk.
+Definition walk_outcome (b : list Z) : list Z :=
+  match walk b with
+  | Ok l => 0 :: flat_map (fun e => [fst e; snd e]) l
+  | Err _ => [1]
+  end.
+Definition walk_digest (b : list Z) : list Z :=
+  match walk b with
+  | Ok l => [0; len l; dig (flat_map (fun e => [fst e; snd e]) l)]
+  | Err _ => [1]
+  end.
+(* the walker on what the model writes for a document *)
+Definition doc_walk_outcome (pad : Z) (d : psd) : list Z :=
+  match write_psd enc pad d with
+  | Ok (b, _) => walk_digest b
+  | Err e => [2; err_code e]
+  end.
